@@ -46,3 +46,50 @@ def lowering_validation(bld):
         return res
     finally:
         shutil.rmtree(tmp, ignore_errors=True)
+
+
+def _two_sided(bld, title, base, models, n_macro, unwind_main, extra_defines=()):
+    """replay/<base>.c run natively (the real library) -> expected observations -> CBMC on the model"""
+    from . import cbmc as C
+    res = {'name': title, 'status': 'error'}
+    tmp = tempfile.mkdtemp(prefix='vf-conf-')
+    try:
+        exe = os.path.join(tmp, base)
+        src = os.path.join(B.VERIF, 'replay', base + '.c')
+        r = subprocess.run(['gcc', '-O0', '-g', '-fsanitize=address,undefined', '-o', exe, src, '-ljansson'],
+                           stdout=subprocess.PIPE, stderr=subprocess.STDOUT, text=True)
+        if r.returncode != 0:
+            res['detail'] = 'native build failed: ' + r.stdout[-800:]
+            return res
+        r = subprocess.run([exe], stdout=subprocess.PIPE, stderr=subprocess.PIPE, text=True, timeout=60)
+        if r.returncode != 0 or n_macro not in r.stdout:
+            res['detail'] = 'native run failed (rc=%s): %s' % (r.returncode, (r.stderr or r.stdout)[-800:])
+            return res
+        with open(os.path.join(bld.gen, base + '_expected.h'), 'w') as f:
+            f.write('/* observations of the real library, regenerated on every run */\n' + r.stdout)
+        q = C.Query('selftest.' + base, base + '.c', [], models=models, defines=['VJ_MAXM=4', 'VF_MODEL_SIDE'] + list(extra_defines),
+                    unwind=12, checks='memsafe-noconv', budget=300)
+        q.includes = [bld.gen]
+        q.unwindset = {'main.0': unwind_main}
+        rr = C.run_query(bld, q)
+        nconf = len([p for p in rr.get('props', []) if (p.get('desc') or '').startswith('conformance:')])
+        res['status'] = 'pass' if rr['status'] == 'pass' and nconf >= 2 else 'fail'
+        res['observations'] = r.stdout.count(',') + 1
+        res['detail'] = {'cbmc_status': rr['status'], 'conformance_obligations': nconf,
+                         'failed': [p['desc'] + ' @' + str((p.get('loc') or {}).get('line')) for p in (rr.get('violations') or [])][:8],
+                         'inconclusive': [p['desc'] for p in (rr.get('inconclusive') or [])][:5], 'error': rr.get('error')}
+        return res
+    finally:
+        shutil.rmtree(tmp, ignore_errors=True)
+
+
+def json_model_conformance(bld):
+    """M2 vs the real jansson (replay/json_conf.c)"""
+    return _two_sided(bld, 'JSON model conformance (scripted scenarios: real jansson vs model M2)', 'json_conf',
+                      ['alloc', 'jansson_model', 'env'], 'JSON_CONF_N', 170)
+
+
+def getopt_model_conformance(bld):
+    """getopt_long model vs glibc (replay/getopt_conf.c)"""
+    return _two_sided(bld, 'getopt_long model conformance (documented invocation forms: glibc vs model)', 'getopt_conf',
+                      ['alloc', 'jansson_model', 'env', 'getopt_model'], 'GETOPT_CONF_N', 210)
